@@ -106,8 +106,50 @@ func c04doc(rng *sx.Rng, big bool) (*docgen, *dv) {
 	return g, d
 }
 
+// c04aliases: anchors and aliases expand to independent copies, so a subtree referenced from several
+// places is interpolated once PER PLACE, each from the original text: the document must give the same result as
+// the one with every alias written out.
+func c04aliases(rng *sx.Rng, n int) {
+	strs := []string{"a $$FOO ${FOO}", "$$X", "v $BAR", "$${BAR}", "plain", "${CHAIN}", "$$$$FOO"}
+	for i := 0; i < n; i++ {
+		q := func() string { return fmt.Sprintf("%q", sx.Pick(rng, strs)) }
+		shared := sx.Pick(rng, []string{
+			fmt.Sprintf("{k1: %s, k2: [%s, %s]}", q(), q(), q()),
+			fmt.Sprintf("[%s, {n: %s}]", q(), q()),
+			fmt.Sprintf("{%s: %s}", q(), q()),
+		})
+		tmpl := "x-shared: &sh %s\nsteps:\n- command: echo\n  agents: %s\n  other: %s\n- wait: ~\n  extra: %s\n- trigger: t\n  build: %s\n"
+		withAlias := fmt.Sprintf(tmpl, shared, "*sh", "*sh", "*sh", "*sh")
+		inlined := fmt.Sprintf(tmpl, shared, shared, shared, shared, shared)
+		run := func(text string) (string, error) {
+			p, err := pipeline.Parse(strings.NewReader(text))
+			if err != nil && !warning.Is(err) {
+				return "", err
+			}
+			env := &hEnv{m: map[string]string{"FOO": "vfoo", "BAR": "v bar", "CHAIN": "$BAR"}}
+			if err := p.Interpolate(env, false); err != nil {
+				return "", err
+			}
+			b, err := json.Marshal(p)
+			return string(b), err
+		}
+		a, ea := run(withAlias)
+		b, eb := run(inlined)
+		if (ea == nil) != (eb == nil) || a != b {
+			oracleFail("C04", "alias-shared", sx.L(sx.A("yaml-block"), sx.A(withAlias)), fmt.Sprintf("with aliases: %s (%v)\nwritten out : %s (%v)", a, ea, b, eb))
+			continue
+		}
+		stat("C04", "alias-docs")
+	}
+}
+
 func init() {
 	props["C04"] = func(rng *sx.Rng, thorough bool) {
+		if thorough {
+			c04aliases(rng, 3000)
+		} else {
+			c04aliases(rng, 150)
+		}
 		n := 1500
 		if thorough {
 			n = 30000
